@@ -4,6 +4,8 @@ from .. import oracles
 
 class C06(Prop):
     pid = "C06"
+    quick = {"seeds": 4000, "wall_cap": 90, "chunk": 16}
+    thorough = {"seeds": 80000, "wall_cap": 1500, "chunk": 32}
     level = "exploration"
     rule = ("one case = one seeded history with dense output on: 1-3 integrate(t) calls (continued calls), optionally terminal/non-terminal events "
             "(stop + continue) and optionally one rhs/event fault followed by a resuming integrate(); every method family, both directions. After EVERY "
